@@ -178,6 +178,9 @@ def solve_ops(job):
     import jax.numpy as jnp
     import numpy as np
     from tools.impl.tabular import frac_to_float
+    if job.get("x64_first", True):
+        # as if a double-precision solver had been built earlier in this process (C20 tests the other order)
+        jax.config.update("jax_enable_x64", True)
     problem = make_problem(job["problem"])
     name = job["solver"]
     cfg = dict(job.get("config", {}))
